@@ -71,8 +71,7 @@ open YaraModel.ReVm in
     a fiber that (a) is reachable in the abstract machine by ε-steps (every branch `_yr_re_fiber_sync` can take),
     zero-width steps and consuming steps and (b) stands at RE_OPCODE_MATCH.  Holds for ANY bytecode, flags and input: the
     fiber list, its de-duplication, the executed-split set and KILL_TAIL only ever REMOVE behaviours.  (First half of VM
-    soundness; the second half — reachable-at-MATCH implies a match of the expression — is `vm_sound_partial` below; for
-    `e{n,m}` it needs the counter-stack invariant: not yet proved.) -/
+    soundness; the second half — reachable-at-MATCH implies a match of the expression — is `vm_sound` below.) -/
 theorem vm_reports_reachable (e : Env) (m : Int) (c : List Nat) (h : exec e = .done m c) :
     (∀ L, L ∈ c → ∃ f md, Reach e f md L ∧ u8 e.code f.ip = OP_MATCH) ∧
     (0 ≤ m → ∃ f md, Reach e f md m.toNat ∧ u8 e.code f.ip = OP_MATCH) :=
@@ -84,40 +83,77 @@ example : exec { code := (emitCode false (.cat (.lit 97) (.cat (.star (.alt (.li
 
 
 open YaraModel.ReVm YaraModel.ReEmit in
-/-- `vm_sound_partial`: soundness of the bytecode VM on emitted code for regular expressions built from literals, `.`,
-    the escapes \w \W \s \S \d \D, the anchors ^ $ and the word boundaries \b \B, `.{n,m}`, concatenation, alternation,
-    `*`, `+` and `?` (greedy or lazy, nested in any way), bracket classes `[...]` — i.e. every node kind except counted repeats
-    `e{n,m}` of a non-dot body other than `e?` and the empty alternative.  For ALL such expressions, ALL buffers and start positions, byte
-    mode (ascii), any nocase / dot-all flags, exhaustive or first-match mode, WITH OR WITHOUT the scan mode of `matches`,
-    forward code: every length L the Lean model of `yr_re_exec` reports on the code produced by the Lean model of
-    `_yr_re_emit` ends a match of the expression inside the buffer that begins at the start position — or, in scan mode
-    only, at some later position s0 ≤ start + L (in particular a reported match of a string at an offset implies that the
-    expression matches there).  `+` is emitted as in the fixed `_yr_re_emit` (52e6c09: the split jumps back to the first
-    byte of the code for e), the scan-mode restart and ACTION_CONTINUE as in the fixed `yr_re_exec` (eeb23a8, b5b43d7).
+/-- `vm_sound`: soundness of the bytecode VM on emitted code for EVERY regular expression the compiler hands to
+    `_yr_re_emit` (`WF r`: every RE_NODE kind — literals, `.`, the escapes \w \W \s \S \d \D, bracket classes, the anchors
+    ^ $, the word boundaries \b \B, `.{n,m}`, concatenation, alternation incl. the empty alternative, `*`, `+`, and counted
+    repeats `e{n,m}` of EVERY row of the emit table (prolog copy / REPEAT_START…REPEAT_END loop with the counter on the
+    fiber stack / `split ; e` / epilog copy; n ≤ m < 65536), greedy or lazy, nested in any way).  For ALL such expressions
+    whose code stays below the emitter's int16 jump range, ALL buffers and start positions, byte mode (ascii), any nocase /
+    dot-all flags, exhaustive or first-match mode, WITH OR WITHOUT the scan mode of `matches`, forward code: every length L
+    the Lean model of `yr_re_exec` reports on the code produced by the Lean model of `_yr_re_emit` ends a match of the
+    expression inside the buffer that begins at the start position — or, in scan mode only, at some later position
+    s0 ≤ start + L (in particular a reported match of a string at an offset implies that the expression matches there).
+    Proof: the code decodes to a shape (`lower r`, the emit table as prolog · loop · optional/epilog) that denotes the same
+    language (`lower_sem`, from `range_table`); every state of the abstract machine inside a shape has a continuation
+    language — inside a loop it depends on the loop counter read from the stack at the loop's nesting depth — and every
+    machine step keeps "what the successor accepts, the predecessor accepts" (`seg_step`).
     Both models are validated against the C functions on every generated case (real bytecode: C VM = Lean VM; emitted bytes
-    equal).  Full statement aimed at (not yet proved): also `e{n,m}` beyond `e?` (REPEAT_START/END with the counter stack) and the
-    empty alternative, wide mode, backward code, and the converse inclusion (completeness, which needs the executed-split-set
-    argument for ε-loops). -/
-theorem vm_sound_partial (r : Re) (hf : Frag r) (hsz : clen r < 32000) (buf : Bytes) (start : Nat) (hst : start ≤ buf.size)
+    equal).  Wide mode and backward code: `vm_sound_forward`, `vm_sound_backward` below.  Not yet proved: the converse inclusion
+    (completeness, which needs the executed-split-set argument for ε-loops) and runs that enter the code at an atom's
+    instruction in the middle (the composition of `_yr_scan_verify_re_match`; at the level of the specification: `decompose`). -/
+theorem vm_sound (r : Re) (hwf : WF r) (hsz : (emit false r 0).1.length < 32000) (buf : Bytes) (start : Nat) (hst : start ≤ buf.size)
     (fl : VmFlags) (hw : fl.wide = false) (hb : fl.backwards = false) (fuel : Nat) (m : Int) (c : List Nat)
     (h : exec { code := (emitCode false r).toArray, entry := 0, buf := buf, start := start, fl := fl, syncFuel := fuel } = .done m c) :
     (∀ L, L ∈ c → ∃ s0, start ≤ s0 ∧ s0 ≤ start + L ∧ start + L ≤ buf.size ∧ (fl.scan = false → s0 = start) ∧
       Re.Matches (specFlags fl) buf r s0 (start + L)) ∧
     (0 ≤ m → ∃ s0, start ≤ s0 ∧ s0 ≤ start + m.toNat ∧ start + m.toNat ≤ buf.size ∧ (fl.scan = false → s0 = start) ∧
       Re.Matches (specFlags fl) buf r s0 (start + m.toNat)) :=
-  envOf_sound r hf hsz buf start hst fl hw hb fuel m c h
+  envOf_sound r hwf hsz buf start hst fl hw hb fuel m c h
 
 open YaraModel.ReVm YaraModel.ReEmit in
-/-- `matches_sound_partial`: the `matches` operator never holds without reason.  `str matches /r/` runs `yr_re_exec` in
-    scan mode from offset 0 of the string and is true iff the result is ≥ 0; for every expression of the fragment above,
-    every string and flags: if the model of the VM returns a non-negative value on the emitted code then the expression
-    matches some substring str[o, q).  (Before eeb23a8 the empty match at the END of the string was not tried; the converse
-    — every match is found — is the completeness statement not yet proved.) -/
-theorem matches_sound_partial (r : Re) (hf : Frag r) (hsz : clen r < 32000) (str : Bytes)
+/-- `vm_sound_forward`: `vm_sound` for one-byte AND two-byte (wide) characters.  For every well-formed expression, every
+    buffer, start position and flags with RE_FLAGS_BACKWARDS off (wide or not, nocase, dot-all, exhaustive or not; the scan
+    mode only in byte mode, as the `matches` operator uses it): a length L (in bytes) reported by the model of `yr_re_exec`
+    on the forward code ends a match of the expression — under the specification's flags with the SAME wide bit: every
+    character two bytes with a zero high byte — that begins s0 ≤ L bytes after the start position (s0 = 0 outside the
+    scan mode) and lies inside the buffer. -/
+theorem vm_sound_forward (r : Re) (hwf : WF r) (hsz : (emit false r 0).1.length < 32000) (buf : Bytes) (start : Nat) (hst : start ≤ buf.size)
+    (fl : VmFlags) (hb : fl.backwards = false) (hsw : fl.scan = true → fl.wide = false) (fuel : Nat) (m : Int) (c : List Nat)
+    (h : exec { code := (emitCode false r).toArray, entry := 0, buf := buf, start := start, fl := fl, syncFuel := fuel } = .done m c) :
+    (∀ L, L ∈ c → ∃ s0, s0 ≤ L ∧ start + L ≤ buf.size ∧ (fl.scan = false → s0 = 0) ∧
+      Re.Matches (specFlagsG fl) buf r (start + s0) (start + L)) ∧
+    (0 ≤ m → ∃ s0, s0 ≤ m.toNat ∧ start + m.toNat ≤ buf.size ∧ (fl.scan = false → s0 = 0) ∧
+      Re.Matches (specFlagsG fl) buf r (start + s0) (start + m.toNat)) :=
+  vm_sound_fwd r hwf hsz buf start hst fl hb hsw fuel m c h
+
+open YaraModel.ReVm YaraModel.ReEmit in
+/-- `vm_sound_backward`: the BACKWARD code (`_yr_re_emit` with EMIT_BACKWARDS — proved to be the forward code of the mirrored
+    expression, `emit_rev`) run by the model of `yr_re_exec` with RE_FLAGS_BACKWARDS, one-byte or wide characters: for every
+    well-formed expression, buffer and start position, every reported length L satisfies L ≤ start and the expression
+    matches buf[start - L, start) — the part of a string match BEFORE the atom that `_yr_scan_verify_re_match` looks for.
+    (`$` never holds in backward code, `^` only at the beginning of the data, word boundaries are symmetric — as in re.c.)
+    The same abstract-machine proof as forwards: only the single-instruction lemmas differ (`Dir`, Lemmas/ReDir.lean). -/
+theorem vm_sound_backward (r : Re) (hwf : WF r) (hsz : (emit true r 0).1.length < 32000) (buf : Bytes) (start : Nat) (hst : start ≤ buf.size)
+    (fl : VmFlags) (hb : fl.backwards = true) (hsc : fl.scan = false) (fuel : Nat) (m : Int) (c : List Nat)
+    (h : exec { code := (emitCode true r).toArray, entry := 0, buf := buf, start := start, fl := fl, syncFuel := fuel } = .done m c) :
+    (∀ L, L ∈ c → L ≤ start ∧ Re.Matches (specFlagsG fl) buf r (start - L) start) ∧
+    (0 ≤ m → m.toNat ≤ start ∧ Re.Matches (specFlagsG fl) buf r (start - m.toNat) start) :=
+  vm_sound_bwd r hwf hsz buf start hst fl hb hsc fuel m c h
+
+open YaraModel.ReVm YaraModel.ReEmit in
+/-- instance: the backward code of `ab+` run backwards from the end of `xabb` reports the lengths 3 (exhaustive mode) -/
+example : exec { code := (emitCode true (.cat (.lit 97) (.plus (.lit 98) true))).toArray, entry := 0, buf := "xabb".toUTF8.data, start := 4, fl := { backwards := true, exhaustive := true } } = .done 3 [3] := by decide
+
+open YaraModel.ReVm YaraModel.ReEmit in
+/-- `matches_sound`: the `matches` operator never holds without reason.  `str matches /r/` runs `yr_re_exec` in scan mode
+    from offset 0 of the string and is true iff the result is ≥ 0; for EVERY well-formed expression, every string and flags:
+    if the model of the VM returns a non-negative value on the emitted code then the expression matches some substring
+    str[o, q).  (The converse — every match is found — is the completeness statement not yet proved.) -/
+theorem matches_sound (r : Re) (hwf : WF r) (hsz : (emit false r 0).1.length < 32000) (str : Bytes)
     (fl : VmFlags) (hw : fl.wide = false) (hb : fl.backwards = false) (fuel : Nat) (m : Int) (c : List Nat)
     (h : exec { code := (emitCode false r).toArray, entry := 0, buf := str, start := 0, fl := fl, syncFuel := fuel } = .done m c)
     (hm : 0 ≤ m) : ∃ o q, o ≤ q ∧ q ≤ str.size ∧ Re.Matches (specFlags fl) str r o q :=
-  matches_sound_frag r hf hsz str fl hw hb fuel m c h hm
+  matches_sound_wf r hwf hsz str fl hw hb fuel m c h hm
 
 open YaraModel.ReVm YaraModel.ReEmit in
 /-- instance (the former finding C03-matches-empty-at-end): `"abc" matches /x*$/` — the scan reaches offset 3 and reports the
@@ -126,16 +162,24 @@ example : exec { code := (emitCode false (.cat (.star (.lit 120) true) .eol)).to
 
 open YaraModel.ReVm YaraModel.ReEmit in
 /-- instance (the former finding C03-plus-backjump): `x(a?b)+c` over `xbc` — the loop of `+` re-enters at the split of `a?`,
-    the first byte of the body; the expression is inside the fragment of `vm_sound_partial` -/
+    the first byte of the body; the expression is covered by `vm_sound` -/
 example : exec { code := (emitCode false (.cat (.lit 120) (.cat (.plus (.cat (.range (.lit 97) 0 1 true) (.lit 98)) true) (.lit 99)))).toArray, entry := 0, buf := "xbc".toUTF8.data, start := 0, fl := {} } = .done 3 [] := by decide
 
 open YaraModel.ReEmit in
-example : Frag (.cat (.lit 120) (.cat (.plus (.cat (.range (.lit 97) 0 1 true) (.lit 98)) true) (.lit 99))) :=
-  .cat (.lit _) (.cat (.plus _ (.cat (.opt _ (.lit _)) (.lit _))) (.lit _))
+example : WF (.cat (.lit 120) (.cat (.plus (.cat (.range (.lit 97) 0 1 true) (.lit 98)) true) (.lit 99))) :=
+  .cat (.lit _) (.cat (.plus _ (.cat (.range 0 1 _ (.lit _) (by decide) (by decide)) (.lit _))) (.lit _))
+
+open YaraModel.ReVm YaraModel.ReEmit in
+/-- instance with a REPEAT_START/END loop: `xa{3,5}y` over `xaaaay` (prolog · loop{1,3} · optional copy) -/
+example : exec { code := (emitCode false (.cat (.lit 120) (.cat (.range (.lit 97) 3 5 true) (.lit 121)))).toArray, entry := 0, buf := "xaaaay".toUTF8.data, start := 0, fl := {} } = .done 6 [] := by decide
 
 open YaraModel.ReEmit in
-/-- the fragment is not empty: `\ba(b|c)*d+\B` -/
-example : Frag (.cat .wordB (.cat (.lit 97) (.cat (.star (.alt (.lit 98) (.lit 99)) true) (.cat (.plus (.lit 100) false) .nonWordB)))) :=
-  .cat .wordB (.cat (.lit _) (.cat (.star _ (.alt (.lit _) (.lit _))) (.cat (.plus _ (.lit _)) .nonWordB)))
+example : WF (.cat (.lit 120) (.cat (.range (.alt (.cat (.lit 97) (.lit 97)) (.lit 97)) 4 6 true) (.lit 121))) :=
+  .cat (.lit _) (.cat (.range 4 6 _ (.alt (.cat (.lit _) (.lit _)) (.lit _)) (by decide) (by decide)) (.lit _))
+
+open YaraModel.ReEmit in
+/-- every node kind: `\ba(b|)*d+\B` -/
+example : WF (.cat .wordB (.cat (.lit 97) (.cat (.star (.alt (.lit 98) .empty) true) (.cat (.plus (.lit 100) false) .nonWordB)))) :=
+  .cat .wordB (.cat (.lit _) (.cat (.star _ (.alt (.lit _) .empty)) (.cat (.plus _ (.lit _)) .nonWordB)))
 
 end YaraModel.C03
